@@ -229,14 +229,15 @@ theorem encodeS_eq_toWire (env : Env) (hwf : WFEnv env) (fuel : Nat) (t : Ty) (g
         | error er => simp [liftOps]
         | ok ws =>
           simp only []
-          have hlen : arityOk sd.kind ws.length = arityOk sd.kind (countSet (gs.take sd.fields.length)) := by
+          have hlen : arityOkS sd ws.length = arityOkS sd (countSet (gs.take sd.fields.length)) := by
+            unfold arityOkS
             cases ha : sd.kind.arity with
             | none => simp [arityOk, ha]
             | some b =>
               have := hwf n sd hfind (by simp [ha])
               rw [toWireFields_length _ _ _ this _ htf]
           rw [← hlen]
-          by_cases hok : arityOk sd.kind ws.length <;> simp [hok, liftOps, opsOfValue]
+          by_cases hok : arityOkS sd ws.length <;> simp [hok, liftOps, opsOfValue]
 
 /-- both serialisers produce the same bytes, or both fail. -/
 theorem encode_bytes_agree (env : Env) (hwf : WFEnv env) (fuel : Nat) (t : Ty) (g : GVal) :
